@@ -269,7 +269,64 @@ def standin_engine_stream_faults(tier, seed):
                 cases=cases, distinct=cases, failures=len(fails), exhaustive=True, _fails=fails[:3])
 standin_engine_stream_faults.prop = "C20"
 
-STANDINS = [standin_collector_schedules, standin_sampler_limiter, standin_engine_stream_faults]
+
+def standin_pauli_sum_collector(tier, seed):
+    """PauliSumCollector under every completion order of its concurrent jobs: each result is credited to the Pauli term whose job it
+    answers (the estimate on a basis state is exact, so any mix-up shows as a wrong energy)"""
+    import duet
+
+    import cirq
+
+    a, b, c = cirq.LineQubit.range(3)
+    circuit = cirq.Circuit(cirq.I(a), cirq.X(b), cirq.X(c))          # |0 1 1>: <Za> = 1, <Zb> = -1, <Zc> = -1
+    observables = [(1 * cirq.Z(a) + 2 * cirq.Z(b), -1.0), (1 * cirq.Z(a) + 2 * cirq.Z(b) + 4 * cirq.Z(a) * cirq.Z(b) + 8, 3.0), (3 * cirq.Z(a) - 2 * cirq.Z(b) + 5 * cirq.Z(c) * cirq.Z(a), 0.0)]
+
+    class Ordered(cirq.Sampler):
+        """finishes its jobs in a scripted order: job number n (1-based, in submission order) waits delay[n] ticks"""
+
+        def __init__(self, delays):
+            self.sim, self.delays, self.calls, self.in_flight, self.max_in_flight, self.order = cirq.Simulator(seed=1), delays, 0, 0, 0, []
+
+        def run_sweep(self, program, params, repetitions=1):
+            return self.sim.run_sweep(program, params, repetitions)
+
+        async def run_async(self, program, *, repetitions):
+            self.calls += 1
+            n = self.calls
+            self.in_flight += 1
+            self.max_in_flight = max(self.max_in_flight, self.in_flight)
+            try:
+                await duet.sleep(0.004 * self.delays[(n - 1) % len(self.delays)])
+                res = self.sim.run(program, repetitions=repetitions)
+            finally:
+                self.in_flight -= 1
+            self.order.append(n)
+            return res
+
+    cases, fails = 0, []
+    perms = list(itertools.permutations(range(3)))
+    for (obs, want), conc, per_term, per_job in itertools.product(observables, (1, 2, 3), (20,), (20, 10)):
+        for delays in perms if tier != "quick" else perms[::2]:
+            cases += 1
+            sampler = Ordered([d + 1 for d in delays])
+            col = cirq.PauliSumCollector(circuit, obs, samples_per_term=per_term, max_samples_per_job=per_job)
+            try:
+                duet.run(col.collect_async, sampler, concurrency=conc)
+                e = col.estimated_energy()
+            except Exception as ex:
+                fails.append(dict(args=dict(observable=str(obs), concurrency=conc, delays=list(delays)), failed="pauli-sum-collector", clause=f"collect_async raised {ex!r}"))
+                continue
+            if sampler.max_in_flight > conc or abs(e - want) > 1e-9:
+                fails.append(dict(args=dict(observable=str(obs), concurrency=conc, max_samples_per_job=per_job, completion_order=sampler.order, max_in_flight=sampler.max_in_flight), failed="pauli-sum-collector",
+                                  clause=f"estimated energy {e} (exact value {want}) with the jobs completing in the order {sampler.order}; at most {sampler.max_in_flight} in flight for concurrency {conc}"))
+        if len(fails) >= 3:
+            break
+    return dict(function="cirq-core/cirq/work/pauli_sum_collector.py:PauliSumCollector", case="pauli-sum-collector",
+                bound="3 observables x concurrency 1-3 x 1-2 jobs per term x scripted completion orders (all 6 delay patterns in the thorough tier) on a basis state (exact expectation)",
+                cases=cases, distinct=cases, failures=len(fails), exhaustive=False, _fails=fails[:3])
+standin_pauli_sum_collector.prop = "C20"
+
+STANDINS = [standin_collector_schedules, standin_sampler_limiter, standin_engine_stream_faults, standin_pauli_sum_collector]
 
 
 def _replay_collector(ob, seed):
